@@ -415,6 +415,192 @@ def check_exceptions(run, rule, reach, mains):
     run.floor(rule, 6, "throw discipline + 5 tools")
 
 
+# ------------------------------------------------------------------ R03.8 element references and container growth
+
+GROW = {
+    "vector": ("push_back", "emplace_back", "insert", "emplace", "resize", "reserve", "shrink_to_fit", "assign", "clear", "erase",
+               "pop_back", "swap", "operator="),
+    "basic_string": ("push_back", "append", "insert", "resize", "reserve", "shrink_to_fit", "assign", "clear", "erase", "pop_back",
+                     "swap", "operator=", "operator+="),
+    "deque": ("push_back", "push_front", "emplace_back", "emplace_front", "insert", "emplace", "resize", "clear", "erase", "pop_back",
+              "pop_front", "swap", "operator=", "assign"),
+    # node containers: references to elements survive insertion; only removal of the element (or of everything) kills them
+    "unordered_map": ("clear", "erase", "swap", "operator="),
+    "map": ("clear", "erase", "swap", "operator="),
+}
+ELEM = ("back", "front", "at", "operator[]", "data", "begin", "end", "find", "cbegin", "cend", "rbegin", "rend")
+
+
+def container_kind(t):
+    t = (t or "").replace("const ", "")
+    for k in GROW:
+        if t.startswith("std::%s<" % k):
+            return k
+    return None
+
+
+def element_source(init):
+    """(container path, container kind) when init denotes an element / iterator / pointer into a standard container."""
+    e = ir.unwrap_all_casts(unwrap(init))
+    for _ in range(4):
+        if not isinstance(e, dict):
+            return None
+        k = e.get("k")
+        if k == "Un" and e.get("op") in ("*", "&"):
+            e = ir.unwrap_all_casts(unwrap(e.get("e")))
+            continue
+        if k == "OpCall" and e.get("op") in ("*", "->") and e.get("args"):
+            e = ir.unwrap_all_casts(unwrap(e["args"][0]))
+            continue
+        if k == "Member":
+            e = ir.unwrap_all_casts(unwrap(e.get("base")))
+            continue
+        break
+    if not isinstance(e, dict):
+        return None
+    recv = None
+    if e.get("k") == "MCall" and callee_name(e) in ELEM:
+        recv = e.get("recv")
+    elif e.get("k") == "OpCall" and e.get("op") == "[]" and e.get("args"):
+        recv = e["args"][0]
+    if recv is None:
+        return None
+    kind = container_kind((unwrap(recv) or {}).get("t"))
+    p = path(recv)
+    if kind is None or p is None:
+        return None
+    if kind in ("unordered_map", "map") and e.get("k") == "OpCall":
+        return p, kind            # m[k] yields a reference that survives later insertions
+    return p, kind
+
+
+def check_invalidation(run, rule, facts):
+    """A reference, pointer or iterator into a vector / string is dead after anything that may reallocate or shrink the
+    container; a later use reads or writes freed memory.  Flow order as in the normalisation (a growth call between the
+    binding and a use, or in a loop that contains the use but not the binding)."""
+    n = 0
+    for f in sorted(facts.functions.values(), key=lambda f: (f.get("file", ""), f.get("line", 0))):
+        if not f.get("file", "").startswith(facts.repo + "/src/") or f.get("body") is None:
+            continue
+        body = f["body"]
+        order, loops_of = {}, {}
+        cnt = [0]
+
+        def number(x, loops):
+            if isinstance(x, list):
+                for y in x:
+                    number(y, loops)
+                return
+            if not isinstance(x, dict):
+                return
+            cnt[0] += 1
+            order[id(x)] = cnt[0]
+            loops_of[id(x)] = loops
+            l2 = loops + (id(x),) if x.get("k") in ("While", "Do", "For", "RangeFor") else loops
+            for c in ir.children(x):
+                number(c, l2)
+        number(body, ())
+        # (block, index) chain of every node: a call followed, in its block, by a statement that always leaves
+        # (continue / break / return / throw) does not reach what comes after that block in the same iteration
+        chain = {}
+        in_switch = {}
+
+        def chains(x, ch, sw):
+            if isinstance(x, dict):
+                chain[id(x)] = ch
+                if x.get("k") == "Switch":
+                    sw = True
+                elif x.get("k") in ("While", "Do", "For", "RangeFor"):
+                    sw = False
+                if x.get("k") == "Block":
+                    in_switch[id(x)] = sw
+                    for i_, s_ in enumerate(x.get("s", [])):
+                        chains(s_, ch + ((x, i_),), sw)
+                else:
+                    for c_ in ir.children(x):
+                        chains(c_, ch, sw)
+        chains(body, (), False)
+
+        def leaves(st_, blk):
+            k_ = st_.get("k")
+            if k_ in ("Return", "Continue") or unwrap(st_).get("k") == "Throw":
+                return True
+            if k_ == "Break":
+                return not in_switch.get(id(blk), False)      # a break inside a switch only leaves the switch
+            if k_ == "Block":
+                return any(leaves(y_, st_) for y_ in st_.get("s", []))
+            if k_ == "If":
+                return st_.get("else") is not None and leaves(st_["then"], blk) and leaves(st_["else"], blk)
+            return False
+
+        def reaches(w, u):
+            for (blk, i_) in reversed(chain.get(id(w), ())):
+                sts_ = blk.get("s", [])
+                for j_ in range(i_ + 1, len(sts_)):
+                    if leaves(sts_[j_], blk):
+                        inside = any((b_ is blk and i_ <= k_ <= j_) for (b_, k_) in chain.get(id(u), ()))
+                        if not inside:
+                            return False
+                        break
+            return True
+        binds = []
+        for d in ir.walk(body):
+            if d.get("k") == "Decl":
+                for v in d.get("vars", []):
+                    if "n" not in v or v.get("init") is None:
+                        continue
+                    t = v.get("t", "")
+                    if not (v.get("ref") or t.endswith("*") or "iterator" in t):
+                        continue
+                    src = element_source(v["init"])
+                    if src is not None:
+                        binds.append((d, v, src))
+            if d.get("k") == "RangeFor" and isinstance(d.get("var"), dict) and d["var"].get("ref"):
+                rp = path(d.get("range"))
+                kind = container_kind((unwrap(d.get("range")) or {}).get("t"))
+                if rp is not None and kind is not None:
+                    binds.append((d.get("body") or d, d["var"], (rp, kind)))
+        if not binds:
+            continue
+        grows = []
+        for c in ir.walk(body):
+            if c.get("k") in ("MCall", "OpCall") and id(c) in order:
+                recv = c.get("recv") if c.get("k") == "MCall" else (c.get("args") or [None])[0]
+                rp = path(recv) if recv is not None else None
+                kind = container_kind((unwrap(recv) or {}).get("t")) if recv is not None else None
+                nm = callee_name(c) or ("operator" + c.get("op", "") if c.get("k") == "OpCall" else "")
+                if rp is not None and kind is not None and nm in GROW[kind] and not (c.get("callee") or {}).get("const"):
+                    grows.append((order[id(c)], rp, loops_of[id(c)], nm, c))
+        for d, v, (cp, kind) in binds:
+            n += 1
+            d_o = order.get(id(d), 0)
+            d_loops = set(loops_of.get(id(d), ()))
+            if d.get("k") != "Decl":
+                d_loops = d_loops | {lid for lid in []}
+            hit = None
+            for u in ir.walk(body):
+                if u.get("k") == "Ref" and u.get("d") == "local" and u.get("id") == v.get("id") and order.get(id(u), 0) > d_o:
+                    u_o = order[id(u)]
+                    u_loops = set(loops_of[id(u)])
+                    for (w_o, wp, w_loops, nm, node) in grows:
+                        if wp != cp:
+                            continue
+                        between = d_o < w_o < u_o
+                        carried = any(L in u_loops and L not in d_loops for L in w_loops)
+                        if (between and reaches(node, u)) or carried:
+                            hit = (u, nm, node)
+                            break
+                if hit:
+                    break
+            key = "%s:%s->%s" % (fname(f), v.get("n"), ir.path_str(cp))
+            run.ob(rule, key, hit is None, f, (hit[0] if hit else d).get("l", f["line"]) or f["line"],
+                   "no growth of %s between the binding of `%s` and its uses" % (ir.path_str(cp), v.get("n")) if hit is None else
+                   "`%s` refers into %s (bound at line %s) and is used at line %s after %s.%s() at line %s: the call may reallocate the "
+                   "container, the reference then points into freed memory" % (
+                       v.get("n"), ir.path_str(cp), d.get("l"), hit[0].get("l"), ir.path_str(cp), hit[1], hit[2].get("l")))
+    run.floor(rule, 10, "references / iterators into standard containers")
+
+
 def check(run):
     facts = run.facts
     reach, mains, cg = read_side(facts)
@@ -442,4 +628,5 @@ def check(run):
             run.ob("R03.5", base if seen[base] == 1 else "%s#%d" % (base, seen[base]), ok, f, node.get("l", 0), txt)
     run.floor("R03.5", 8, "signed arithmetic / shifts / divisions on the read side")
     check_inet_ntop(run, "R03.6", fns)
+    check_invalidation(run, "R03.8", facts)
     check_exceptions(run, "R03.7", reach, mains)
